@@ -227,10 +227,15 @@ func c12One(exp string, M, L int, kind string, mi, li int) (int, int, string) {
 				}
 			}
 			req := httptest.NewRequest(http.MethodGet, "/x", nil).WithContext(rctx)
+			var hw http.ResponseWriter = rw
+			if kind == "write" {
+				// the client has gone: every write to the response fails from the k-th on
+				hw = &failingRW{ResponseRecorder: httptest.NewRecorder(), failAt: k}
+			}
 			if exp == "varz" {
-				e.HandleVarz(rw, req)
+				e.HandleVarz(hw, req)
 			} else {
-				e.HandleGraphite(rw, req)
+				e.HandleGraphite(hw, req)
 			}
 		}
 	}()
@@ -291,6 +296,7 @@ func c12Faults(exp string, M, L int) [][3]string {
 				}
 			case "varz", "graphite":
 				add("cancel", mi, li)
+				add("write", mi, li)
 				add("utf8", mi, li)
 				if li == 0 {
 					add("utf8+w", mi, li)
